@@ -55,9 +55,11 @@ PLAN = {
                     "termination), the tiling lemmas, and the query traversal _maybe_intersects_ranges for d in {1,2,3} "
                     "(worklist and result lists of symbolic length): relative to the tree invariant TI (perfect tree; every "
                     "node box encloses the NaN-free rows of its key range) no row meeting the query is lost, every NaN-free "
-                    "row of a covered range lies inside the query, and all recorded ranges are pairwise disjoint. TI itself "
+                    "row of a covered range lies inside the query, and all recorded ranges are pairwise disjoint; _valid_rows; for the "
+                    "assembly functions intersects / covers_overlaps: every write into the result buffers is in bounds (numba "
+                    "does not check) and the leaf-level masks are exact (outside <=> NaN row or no overlap, covers <=> inside). TI itself "
                     "(established by the build, which uses argsort / nanmin over list comprehensions - outside the subset), "
-                    "the assembly of row ids from the ranges and the API are covered by the run-time checked contracts "
+                    "that the ids written are exactly the keys of the selected rows, each once (mask compaction), and the API are covered by the run-time checked contracts "
                     "(bounded): TI on real built trees, random box sets incl. NaN rows, d in 1..3, page sizes 1..n+1, p in 1..31",
     ),
     'C04': dict(
